@@ -15,6 +15,144 @@ import (
 //	pkg/cursor/fiterator.go  fitInRange: ts >= MinTs && ts <= MaxTs
 //	pkg/cursor/cursor.go     newCursor: defaults of a missing RANGE bound
 //	pkg/partition/iwrapper.go Get: 0 used as "unset" for minTs/maxTs
+// c02Reachable: the function `recv.name` of file f and the functions of the same file it calls (methods called on its own
+// receiver variable and plain functions), transitively
+func c02Reachable(f *ast.File, recv, name string) []*ast.FuncDecl {
+	var out []*ast.FuncDecl
+	seen := map[string]bool{}
+	var visit func(r, n string)
+	visit = func(r, n string) {
+		if seen[r+"."+n] {
+			return
+		}
+		seen[r+"."+n] = true
+		fd := funcDecl(f, r, n)
+		if fd == nil || fd.Body == nil {
+			return
+		}
+		out = append(out, fd)
+		rv := ""
+		if fd.Recv != nil && len(fd.Recv.List) == 1 && len(fd.Recv.List[0].Names) == 1 {
+			rv = fd.Recv.List[0].Names[0].Name
+		}
+		ast.Inspect(fd.Body, func(m ast.Node) bool {
+			if ce, ok := m.(*ast.CallExpr); ok {
+				switch fn := ce.Fun.(type) {
+				case *ast.Ident:
+					visit("", fn.Name)
+				case *ast.SelectorExpr:
+					if id, ok := fn.X.(*ast.Ident); ok && rv != "" && id.Name == rv {
+						visit(r, fn.Sel.Name)
+					}
+				}
+			}
+			return true
+		})
+	}
+	visit(recv, name)
+	return out
+}
+
+// c02FindCall: the first call of a method named `name` in the block
+func c02FindCall(b *ast.BlockStmt, name string) *ast.CallExpr {
+	var found *ast.CallExpr
+	ast.Inspect(b, func(m ast.Node) bool {
+		if ce, ok := m.(*ast.CallExpr); ok && found == nil {
+			if se, ok := ce.Fun.(*ast.SelectorExpr); ok && se.Sel.Name == name {
+				found = ce
+			}
+		}
+		return true
+	})
+	return found
+}
+
+// c02ConstPos: 0, an integer literal, or math.MaxUint32
+func c02ConstPos(e ast.Expr) (int64, bool) {
+	switch x := e.(type) {
+	case *ast.BasicLit:
+		if v, err := strconv.ParseInt(x.Value, 0, 64); err == nil {
+			return v, true
+		}
+	case *ast.SelectorExpr:
+		if id, ok := x.X.(*ast.Ident); ok && id.Name == "math" && x.Sel.Name == "MaxUint32" {
+			return 4294967295, true
+		}
+	}
+	return 0, false
+}
+
+// c02ErrFallback: in the function that calls `which`, the statement list that contains the call is followed (or the call's if
+// statement is) by `if err != nil { … }`; the constant assigned to a position / returned there
+func c02ErrFallback(fd *ast.FuncDecl, which string) (int64, bool) {
+	var res int64
+	ok := false
+	ast.Inspect(fd.Body, func(n ast.Node) bool {
+		blk, isBlk := n.(*ast.BlockStmt)
+		if !isBlk || ok {
+			return true
+		}
+		for i, st := range blk.List {
+			// the statement itself (not a nested block) must contain the call
+			as, isAs := st.(*ast.AssignStmt)
+			if !isAs || c02FindCallExprs(as.Rhs, which) == nil {
+				continue
+			}
+			for _, nx := range blk.List[i+1:] {
+				is, isIf := nx.(*ast.IfStmt)
+				if !isIf {
+					continue
+				}
+				be, isBe := is.Cond.(*ast.BinaryExpr)
+				if !isBe || be.Op != token.NEQ {
+					continue
+				}
+				if id, isId := be.X.(*ast.Ident); !isId || id.Name != "err" {
+					continue
+				}
+				ast.Inspect(is.Body, func(m ast.Node) bool {
+					switch y := m.(type) {
+					case *ast.ReturnStmt:
+						if len(y.Results) == 1 {
+							if v, good := c02ConstPos(y.Results[0]); good && !ok {
+								res, ok = v, true
+							}
+						}
+					case *ast.AssignStmt:
+						if len(y.Lhs) == 1 && len(y.Rhs) == 1 && y.Tok == token.ASSIGN {
+							if v, good := c02ConstPos(y.Rhs[0]); good && !ok {
+								res, ok = v, true
+							}
+						}
+					}
+					return true
+				})
+				break
+			}
+		}
+		return true
+	})
+	return res, ok
+}
+
+func c02FindCallExprs(es []ast.Expr, name string) *ast.CallExpr {
+	for _, e := range es {
+		var found *ast.CallExpr
+		ast.Inspect(e, func(m ast.Node) bool {
+			if ce, ok := m.(*ast.CallExpr); ok && found == nil {
+				if se, ok := ce.Fun.(*ast.SelectorExpr); ok && se.Sel.Name == name {
+					found = ce
+				}
+			}
+			return true
+		})
+		if found != nil {
+			return found
+		}
+	}
+	return nil
+}
+
 func init() {
 	generators["C02"] = func() {
 		l := newLean("C02", "Facts about pkg/tmindex (cindex.go, ckindex.go), pkg/partition (cselector.go, iwrapper.go), pkg/cursor (fiterator.go, cursor.go).")
@@ -185,6 +323,50 @@ func init() {
 			return found
 		}
 		onWriteSetsRecs := assignsField("cindex", "onWrite", "Recs")
+		// proposed repair F78: lightFill reads EVERY record of a chunk the index does not know (a loop that calls getRecordTimestamp
+		// and moves the iterator with Next) instead of the first and the last one (SetPos to Count()-1)
+		lightFillScansAll, lightFillSetPosLast := false, false
+		if fd := funcDecl(fc, "cindex", "lightFill"); fd != nil {
+			ast.Inspect(fd.Body, func(n ast.Node) bool {
+				switch x := n.(type) {
+				case *ast.ForStmt:
+					reads, nexts := false, false
+					ast.Inspect(x.Body, func(m ast.Node) bool {
+						if ce, ok := m.(*ast.CallExpr); ok {
+							if id, ok := ce.Fun.(*ast.Ident); ok && id.Name == "getRecordTimestamp" {
+								reads = true
+							}
+							if se, ok := ce.Fun.(*ast.SelectorExpr); ok && se.Sel.Name == "Next" {
+								nexts = true
+							}
+						}
+						return true
+					})
+					// the loop over the records: it reads and advances, and it is not the loop over the chunks (which contains SetPos or another for)
+					inner := false
+					ast.Inspect(x.Body, func(m ast.Node) bool {
+						if _, ok := m.(*ast.ForStmt); ok {
+							inner = true
+						}
+						if _, ok := m.(*ast.RangeStmt); ok {
+							inner = true
+						}
+						return true
+					})
+					if reads && nexts && !inner {
+						lightFillScansAll = true
+					}
+				case *ast.CallExpr:
+					if se, ok := x.Fun.(*ast.SelectorExpr); ok && se.Sel.Name == "SetPos" {
+						lightFillSetPosLast = true
+					}
+				}
+				return true
+			})
+			if lightFillScansAll == lightFillSetPosLast {
+				problem("cindex.lightFill: neither 'first and last record' (SetPos) nor 'every record' (a loop over getRecordTimestamp/Next) recognised, or both: scansAll=%v setPos=%v", lightFillScansAll, lightFillSetPosLast)
+			}
+		}
 		lightFillSetsRecs := assignsField("cindex", "lightFill", "Recs")
 		dropsStale := callsMethod("cindex", "syncChunks", "dropStale")
 		dropStaleStrict := false // stale means Count() > Recs
@@ -382,27 +564,37 @@ func init() {
 
 		// --- cselector.go updatePoss
 		fs := parseFile("pkg/partition/cselector.go")
-		decr, askVar := false, ""
-		if fd := funcDecl(fs, "chkSelector", "updatePoss"); fd != nil {
+		// updatePoss together with the same-file helpers it calls (methods of the same receiver or plain functions, transitively):
+		// a refactoring that moves a look-up into a helper must not change what is read
+		upBodies := c02Reachable(fs, "chkSelector", "updatePoss")
+		if len(upBodies) == 0 {
+			problem("chkSelector.updatePoss not found")
+		}
+		// (a) which value is handed to GetPosForGreaterOrEqualTime: a local copy that was decremented (`x--` / `x -= 1` / `x = x - 1`),
+		// or `… - 1` directly; (b) what the position becomes when a look-up fails (assignment or return inside `if err != nil`)
+		lowerFound, lowerAskMinusOne := false, false
+		lowerErrPos, upperErrPos := int64(-1), int64(-1)
+		for _, fd := range upBodies {
+			decremented := map[string]bool{}
 			ast.Inspect(fd.Body, func(n ast.Node) bool {
-				switch s := n.(type) {
+				switch x := n.(type) {
 				case *ast.IncDecStmt:
-					if id, ok := s.X.(*ast.Ident); ok && s.Tok == token.DEC {
-						decr = true
-						_ = id
+					if id, ok := x.X.(*ast.Ident); ok && x.Tok == token.DEC {
+						decremented[id.Name] = true
 					}
-				case *ast.CallExpr:
-					if se, ok := s.Fun.(*ast.SelectorExpr); ok && se.Sel.Name == "GetPosForGreaterOrEqualTime" && len(s.Args) == 3 {
-						switch a := s.Args[2].(type) {
-						case *ast.Ident:
-							askVar = a.Name
-						case *ast.SelectorExpr:
-							askVar = "sel:" + a.Sel.Name
-						case *ast.BinaryExpr:
-							askVar = "expr"
-							if a.Op == token.SUB {
-								if bl, ok := a.Y.(*ast.BasicLit); ok && bl.Value == "1" {
-									decr = true
+				case *ast.AssignStmt:
+					if len(x.Lhs) == 1 && len(x.Rhs) == 1 {
+						if id, ok := x.Lhs[0].(*ast.Ident); ok {
+							if x.Tok == token.SUB_ASSIGN {
+								if bl, ok := x.Rhs[0].(*ast.BasicLit); ok && bl.Value == "1" {
+									decremented[id.Name] = true
+								}
+							}
+							if be, ok := x.Rhs[0].(*ast.BinaryExpr); ok && be.Op == token.SUB {
+								if xi, ok := be.X.(*ast.Ident); ok && xi.Name == id.Name {
+									if bl, ok := be.Y.(*ast.BasicLit); ok && bl.Value == "1" {
+										decremented[id.Name] = true
+									}
 								}
 							}
 						}
@@ -410,14 +602,60 @@ func init() {
 				}
 				return true
 			})
-		} else {
-			problem("chkSelector.updatePoss not found")
+			for _, which := range []string{"GetPosForGreaterOrEqualTime", "GetPosForLessTime"} {
+				call := c02FindCall(fd.Body, which)
+				if call == nil {
+					continue
+				}
+				if which == "GetPosForGreaterOrEqualTime" {
+					lowerFound = true
+					if len(call.Args) != 3 {
+						problem("chkSelector.updatePoss: GetPosForGreaterOrEqualTime is not called with 3 arguments: unknown shape")
+					} else {
+						switch a := call.Args[2].(type) {
+						case *ast.Ident:
+							lowerAskMinusOne = decremented[a.Name]
+						case *ast.SelectorExpr:
+							lowerAskMinusOne = false // the range bound itself
+						case *ast.BinaryExpr:
+							bl, ok := a.Y.(*ast.BasicLit)
+							if a.Op == token.SUB && ok && bl.Value == "1" {
+								lowerAskMinusOne = true
+							} else {
+								problem("chkSelector.updatePoss: the timestamp handed to GetPosForGreaterOrEqualTime is an expression the extractor cannot read")
+							}
+						default:
+							problem("chkSelector.updatePoss: the timestamp handed to GetPosForGreaterOrEqualTime is an expression the extractor cannot read")
+						}
+					}
+				}
+				v, ok := c02ErrFallback(fd, which)
+				if !ok {
+					problem("chkSelector.updatePoss: cannot read what the position becomes when %s fails (no `if err != nil` with an assignment / return of a constant after the call)", which)
+				} else if which == "GetPosForGreaterOrEqualTime" {
+					lowerErrPos = v
+				} else {
+					upperErrPos = v
+				}
+			}
 		}
-		lowerAskMinusOne := decr && askVar != "" && askVar != "sel:MinTs"
+		if len(upBodies) > 0 && !lowerFound {
+			problem("chkSelector.updatePoss (and the same-file helpers it calls): no call of GetPosForGreaterOrEqualTime found")
+		}
+		if lowerErrPos < 0 {
+			if lowerFound {
+				problem("chkSelector.updatePoss: error fallback of the lower look-up not found")
+			}
+			lowerErrPos = 0
+		}
+		if upperErrPos < 0 {
+			problem("chkSelector.updatePoss (and the same-file helpers it calls): no call of GetPosForLessTime with a readable error fallback found")
+			upperErrPos = 4294967295
+		}
 		// repair of F46 (proposed): updatePoss asks the index how many records it has been told about (optional capability
 		// KnownRecords) and leaves the whole chunk open when the confirmed count is above it
 		opensUnknownTail := false
-		if fd := funcDecl(fs, "chkSelector", "updatePoss"); fd != nil {
+		for _, fd := range upBodies {
 			ast.Inspect(fd.Body, func(n ast.Node) bool {
 				if ce, ok := n.(*ast.CallExpr); ok {
 					if se, ok := ce.Fun.(*ast.SelectorExpr); ok && strings.HasPrefix(se.Sel.Name, "KnownRecords") {
@@ -633,10 +871,15 @@ func init() {
 		l.p("def rebuildRaisesRecs : Bool := %s", leanBool(rebuildRecs))
 		l.p("/-- `lightFill` treats `MaxTs > 0` as \"hull known\" -/")
 		l.p("def lightFillKnownMeansPositive : Bool := %s", leanBool(lightFillPositive))
+		l.p("/-- `lightFill` derives the hull of a chunk the index does not know from EVERY record (proposed repair F78); false: from the first and the last record only -/")
+		l.p("def lightFillScansAllRecords : Bool := %s", leanBool(lightFillScansAll))
 		l.p("/-- `maxRecsPerBlock`: records per index block -/")
 		l.p("def maxRecsPerBlock : Nat := %d", maxRecs)
 		l.p("/-- `updatePoss` hands `MinTs - 1` (a decremented copy) to `GetPosForGreaterOrEqualTime` (fix 94ffdf8) -/")
 		l.p("def lowerAskMinusOne : Bool := %s", leanBool(lowerAskMinusOne))
+		l.p("/-- `updatePoss`: the position a failed look-up leaves (`GetPosForGreaterOrEqualTime` → minPos, `GetPosForLessTime` → maxPos) -/")
+		l.p("def updatePossLowerErrPos : Nat := %d", lowerErrPos)
+		l.p("def updatePossUpperErrPos : Nat := %d", upperErrPos)
 		l.p("/-- `updatePoss` leaves the whole chunk open when the confirmed count is above the number of records the index has been told about (`KnownRecords` = `Recs`; repair of F46) -/")
 		l.p("def updatePossOpensUnknownTail : Bool := %s", leanBool(opensUnknownTail))
 		l.p("/-- `advanceChunk`: when no chunk follows the one just left, the end-of-data position is where the chunk iterator stopped (fix 008ef8e) -/")
